@@ -606,6 +606,9 @@ func isKnownError(v ssa.Value) bool {
 		if cal := x.Common().StaticCallee(); cal != nil && strings.HasPrefix(cal.Name(), "NewProtocolException") {
 			return true
 		}
+		if cal := x.Common().StaticCallee(); cal != nil && neverNilResult(cal) {
+			return true // errors.New, fmt.Errorf, repository constructors that always allocate
+		}
 	case *ssa.MakeInterface:
 		return true
 	case *ssa.ChangeInterface:
@@ -1836,6 +1839,18 @@ func tightRulesA(P *Program, r *Result, rule string, fns []*ssa.Function, A *Ana
 			continue
 		}
 		n := 0
+		// a return that is stricter than needed is harmless when another success return with the same (constant)
+		// consumption is not: the exact-fit input takes that one
+		lenient := map[string]bool{}
+		for _, ret := range returnsOf(fn) {
+			if !isNilConst(ret.Results[res.Len()-1]) {
+				continue
+			}
+			cnt := fa.expand(ret.Results[cntIdx])
+			if cnt.isConst() && !fa.prove(ineqLE(base.add(cnt).addConst(1), avail), ret.Block(), rootCtx) {
+				lenient[cnt.C.String()] = true
+			}
+		}
 		for _, ret := range returnsOf(fn) {
 			if !isNilConst(ret.Results[res.Len()-1]) {
 				continue
@@ -1843,6 +1858,9 @@ func tightRulesA(P *Program, r *Result, rule string, fns []*ssa.Function, A *Ana
 			n++
 			cnt := fa.expand(ret.Results[cntIdx])
 			strict := fa.prove(ineqLE(base.add(cnt).addConst(1), avail), ret.Block(), rootCtx)
+			if strict && cnt.isConst() && lenient[cnt.C.String()] {
+				strict = false
+			}
 			r.add(rule, shortName(fn), "return", "success does not require more input than it consumes (a value ending exactly at the end of the input is accepted)", P.pos(instrPos(ret)), !strict, "the checks on the way to this return guarantee at least one byte beyond the consumed "+A.linString(cnt))
 		}
 		_ = n
@@ -1968,16 +1986,35 @@ func neededChecks(P *Program, r *Result, rule string, fa *FA, fn *ssa.Function, 
 
 // neededWalk is the search shared by the pointer-span and the slice form.
 func neededWalk(P *Program, r *Result, rule string, fa *FA, fn *ssa.Function, base, avail *Lin, justifies func(in ssa.Instruction, need *Lin) bool) int {
+	return neededWalkF(P, r, rule, fa, fn, base, avail, justifies, nil, nil)
+}
+
+// neededWalkF: failRet / succRet classify return instructions when the function does not end in an error result.
+func neededWalkF(P *Program, r *Result, rule string, fa *FA, fn *ssa.Function, base, avail *Lin, justifies func(in ssa.Instruction, need *Lin) bool, failRet, succRet func(*ssa.Return) bool) int {
 	A := fa.A
 	availID, isAtom := singleAtom(avail)
 	if !isAtom {
 		return 0
 	}
 	res := fn.Signature.Results()
-	if res.Len() == 0 || !isErrorType(res.At(res.Len()-1).Type()) {
+	if failRet == nil && (res.Len() == 0 || !isErrorType(res.At(res.Len()-1).Type())) {
 		return 0
 	}
 	isErrRet := func(b *ssa.BasicBlock) bool {
+		if failRet != nil {
+			for hops := 0; hops < 3; hops++ {
+				last := b.Instrs[len(b.Instrs)-1]
+				if ret, ok := last.(*ssa.Return); ok {
+					return failRet(ret)
+				}
+				if _, ok := last.(*ssa.Jump); ok && len(b.Instrs) == 1 {
+					b = b.Succs[0]
+					continue
+				}
+				return false
+			}
+			return false
+		}
 		for hops := 0; hops < 3; hops++ {
 			last := b.Instrs[len(b.Instrs)-1]
 			if ret, ok := last.(*ssa.Return); ok {
@@ -2026,7 +2063,13 @@ func neededWalk(P *Program, r *Result, rule string, fa *FA, fn *ssa.Function, ba
 							return
 						}
 						if ret, isRet := in.(*ssa.Return); isRet {
-							if isNilConst(ret.Results[res.Len()-1]) {
+							isSucc := false
+							if succRet != nil {
+								isSucc = succRet(ret)
+							} else {
+								isSucc = isNilConst(ret.Results[res.Len()-1])
+							}
+							if isSucc {
 								okAll = false
 								why = "success at " + P.pos(instrPos(ret)) + " is reached without ever reading or counting up to " + A.linString(need)
 							}
@@ -2061,6 +2104,9 @@ func neededWalk(P *Program, r *Result, rule string, fa *FA, fn *ssa.Function, ba
 				walk(pass)
 				nchecks++
 				r.add(rule, shortName(fn), "check", "a length check that can fail asks for no more than what is then read or counted", P.pos(instrPos(iff)), okAll, why)
+				if !okAll && strings.HasPrefix(why, "success at") {
+					r.markDefinite() // a concrete way from the check to a success that never reads that far
+				}
 			}
 		}
 	}
